@@ -360,9 +360,12 @@ func (te *tableEngine) continueGame(alivePlayers []*TablePlayerState) error {
 					// fmt.Println("[DEBUG#continueGame] delay -> TableGameOpen")
 					// return te.TableGameOpen()
 					nextGameCount := te.table.State.GameCount + 1
+					// everyone seated-in with chips is expected, not only the survivors of the last hand
 					participants := make(map[string]int)
-					for idx, player := range alivePlayers {
-						participants[player.PlayerID] = idx
+					for idx, player := range te.table.State.PlayerStates {
+						if player.IsIn && player.Bankroll > 0 {
+							participants[player.PlayerID] = idx
+						}
 					}
 					te.SetUpTableGame(nextGameCount, participants)
 					return nil
